@@ -71,7 +71,7 @@ def exhaustive(t, m_all, m_two, kinds):
                 ops.append(["merge"])
                 ops += freeze_all(t)
                 ops += reads_all(t, probe)
-                cases.append(dict(type=t, suite="p1", P=2, n=[2, 2, 2], ops=ops))
+                cases.append(dict(type=t, suite="p1", P=2, n=[2, 2, 2], ops=ops, family="exhaustive"))
     return cases
 
 
@@ -168,7 +168,7 @@ def random_history(rng, t):
     if t in CONC:
         ops += [["frz", 0], ["frz", 1], ["frz", 2]]
     ops += reads_all(t, [0] if t in ("ni", "cni") else list(range(nk)), combined=(t != "ni"))
-    return dict(type=t, suite=suite, P=P, n=n, ops=ops, unequal=unequal)
+    return dict(type=t, suite=suite, P=P, n=n, ops=ops, unequal=unequal, family="random")
 
 
 def conc_focus(rng, t):
@@ -182,7 +182,7 @@ def conc_focus(rng, t):
     ops += [["frz", 0], ["frz", 1], ["frz", 2]]
     ops += reads_all(t, [0] if t == "cni" else list(range(6)), slots=(2,), combined=False)
     P = rng.choice([1, 2, 3])
-    return dict(type=t, suite=rng.choice(["p1", "p2"]) if t in DASH else "p1", P=P, n=[P, P, P], ops=ops, unequal=False)
+    return dict(type=t, suite=rng.choice(["p1", "p2"]) if t in DASH else "p1", P=P, n=[P, P, P], ops=ops, unequal=False, family="race")
 
 
 def gen_cases(tier, seed):
@@ -883,18 +883,26 @@ def tie(tier, seed, replay):
                                  t, j, ci[j] if j < len(ci) else None, cm[j] if j < len(cm) else None, case_line(c))))
     nfail = len(unequal_eqn_fail)
     samples = []
+    fam = collections.Counter(c.get("family", "corpus") for c in cases)
     for t in TYPES:
-        for c, iv, mv in zip(cases, impl, model):
-            if c["type"] == t and nontrivial(c) and len(c["ops"]) < 40:
-                samples.append(dict(case=case_line(c), impl=repr(iv)[:400], model=repr(mv)[:400]))
-                break
+        for want in (("race", "random") if t in CONC else ("random",)):
+            for c, iv, mv in zip(cases, impl, model):
+                if c["type"] == t and c.get("family") == want and nontrivial(c) and len(c["ops"]) < 45:
+                    samples.append(dict(case=case_line(c), impl=repr(iv)[:500], model=repr(mv)[:500]))
+                    break
+    if not samples:
+        samples = [dict(case=case_line(c), impl=repr(iv)[:500], model=repr(mv)[:500]) for c, iv, mv in list(zip(cases, impl, model))[:3]]
+    if n_unequal:
+        print("note: CRelNoIndex values created in pools of different sizes: %d histories, merge equation total' = total + delta "
+              "fails on %d of them (outside C19's stated precondition, see c19_noindex_merge_unequal_refuted); "
+              "conservation over new+delta+total held on all" % (n_unequal, nfail))
     return dict(evaluations=len(cases), distinct_nontrivial=len(seen),
                 rule="per index type: every sequence of <= 3 (quick) / 4 (thorough) inserts over {new,delta,total} x 2 keys and of <= 3 / 5 inserts over {delta,total} x 2 keys, "
                      "followed by merge and all reads (present and absent keys, iteration, len, is_empty, combined view); plus random histories of 3-22 operations "
                      "(insert, insert_if_not_present, move either direction, merge, freeze / unfreeze, reads, parallel phases of 1-8 tasks under rayon pools of 1,2,3,8 threads or std threads) "
                      "with a full read-out at the end; non-trivial = at least one write and one lookup / iteration; distinct = distinct harness input line",
-                samples=samples[:9],
-                distribution=dict(by_type=dict(dist), by_operation=dict(ops_dist), histories_with_parallel_phase=n_par,
+                samples=samples[:13],
+                distribution=dict(by_type=dict(dist), by_family=dict(fam), by_operation=dict(ops_dist), histories_with_parallel_phase=n_par,
                                   histories_leaving_freeze_protocol=n_viol, cni_unequal_shard_counts=n_unequal,
                                   dashmap_shards=SUITES),
                 mismatches=mism,
